@@ -142,6 +142,9 @@ def check_complete(ex, s, seen):
         return
     if s.causes:
         return
+    from props.c05 import explicit_causes
+    if explicit_causes(ex, s):
+        return          # the client itself closed or broke the session (CLOSE, protocol error)
     # the client kept reading and the session never ended: everything must have arrived
     for x in s.app_sent:
         c = x['call']
